@@ -11,11 +11,26 @@ fn hex(b: &[u8]) -> String {
     b.iter().map(|x| format!("{:02x}", x)).collect()
 }
 
+/// How the line gets into the editor before the Enter that is observed: what a command does may depend on the line only, not
+/// on how it was put together (0 typed front to back, 1 submitted once and recalled with Up, 2 second half first and the first
+/// half inserted in front of it - Enter with the cursor inside the line, 3 with a stray character typed and erased in the middle)
+pub fn route_of(line: &str) -> u32 {
+    if line.is_empty() {
+        return 0;
+    }
+    let mut h: u32 = 0x811c9dc5;
+    for b in line.bytes() {
+        h = (h ^ b as u32).wrapping_mul(0x01000193);
+    }
+    (h >> 7) % 4
+}
+
 /// Type a line and press Enter; report handler invocations and everything the sink got from Enter on.
 pub fn observe_line<S: CmdSet>(line: &str) -> Value {
+    let route = route_of(line);
     let cfg = Config {
         cmd_buf: line.len() + 8,
-        hist_buf: 0,
+        hist_buf: if route == 1 { line.len() + 9 } else { 0 },
         ..Config::default()
     };
     let (s, _) = Sess::<S>::new(&cfg, None);
@@ -23,10 +38,42 @@ pub fn observe_line<S: CmdSet>(line: &str) -> Value {
         Ok(s) => s,
         Err(e) => return json!({"error": format!("construction failed: {:?}", e)}),
     };
-    for &b in line.as_bytes() {
+    let mid = {
+        let mut m = line.len() / 2;
+        while !line.is_char_boundary(m) {
+            m -= 1;
+        }
+        m
+    };
+    let mut keys: Vec<u8> = Vec::new();
+    match route {
+        1 => {
+            keys.extend_from_slice(line.as_bytes());
+            keys.push(b'\r');
+            keys.extend_from_slice(b"\x1b[A");
+        }
+        2 => {
+            keys.extend_from_slice(line[mid..].as_bytes());
+            for _ in 0..line[mid..].chars().count() {
+                keys.extend_from_slice(b"\x1b[D");
+            }
+            keys.extend_from_slice(line[..mid].as_bytes());
+        }
+        3 => {
+            keys.extend_from_slice(line[..mid].as_bytes());
+            keys.extend_from_slice(b"x\x08");
+            keys.extend_from_slice(line[mid..].as_bytes());
+        }
+        _ => keys.extend_from_slice(line.as_bytes()),
+    }
+    for &b in &keys {
         if let Err(e) = s.byte(b) {
             return json!({"error": format!("process_byte failed: {:?}", e)});
         }
+    }
+    if route == 1 {
+        // only the second submission (the recalled line) is reported
+        s.proc_.log.clear();
     }
     let typed_ok = s.editor().bytes == line.as_bytes();
     let o0 = s.out_len();
@@ -49,7 +96,7 @@ pub fn observe_line<S: CmdSet>(line: &str) -> Value {
         Some((got, o)) => json!({"closure": got, "out": String::from_utf8_lossy(&o)}),
         None => Value::Null,
     };
-    json!({"typed_ok": typed_ok, "calls": calls, "via_processor": via, "out": String::from_utf8_lossy(&out), "out_valid_utf8": core::str::from_utf8(&out).is_ok(), "out_hex": hex(&out), "unflushed": s.sink.borrow().unflushed})
+    json!({"typed_ok": typed_ok, "route": route, "calls": calls, "via_processor": via, "out": String::from_utf8_lossy(&out), "out_valid_utf8": core::str::from_utf8(&out).is_ok(), "out_hex": hex(&out), "unflushed": s.sink.borrow().unflushed})
 }
 
 #[derive(Clone, Debug)]
